@@ -192,7 +192,10 @@ def run_machine(rec, F, cnt, sig):
                 rc_f = float(fresh.Rcrit(dG))
                 if rc != rc_f:
                     F.add('C14.cached_factor', f'op {k}: Rcrit({dG}) = {rc!r} after the setter history, fresh object gives {rc_f!r}', factor='Rcrit')
-                if abs(rc - 2 * gamma / dG) > 1e-9 * rc:
+                # Rcrit = 2 (b gamma - a gamma_gb) / (3 c dG): towards the admissible limit of k all three factors vanish and the quotient is a
+                # difference of nearly equal numbers over a tiny one - relative rounding ~ eps / (c / (4 pi / 3))
+                cond = 16 * np.finfo(float).eps / max(c_ / (4 * math.pi / 3), 1e-300)
+                if abs(rc - 2 * gamma / dG) > (1e-9 + cond) * rc:
                     F.add('C14.rcrit_sphere', f'{site} k={kk}: critical radius {rc!r} differs from the spherical value 2 gamma/dG = {2 * gamma / dG!r}', factor='Rcrit')
                 if o == 'gcrit':
                     R = rc * op['rf']
@@ -201,7 +204,7 @@ def run_machine(rec, F, cnt, sig):
                         F.add('C14.cached_factor', f'op {k}: Gcrit = {g1!r} after the setter history, fresh object gives {g2!r}', factor='Gcrit')
                     if op['rf'] == 1.0:
                         ref = 16 * math.pi * gamma ** 3 / (3 * dG ** 2) * (c_ / (4 * math.pi / 3))
-                        if abs(g1 - ref) > 1e-9 * abs(ref):
+                        if abs(g1 - ref) > (1e-9 + 3 * cond) * abs(ref):
                             F.add('C14.barrier_sphere_scaled', f'{site} k={kk}: barrier {g1!r} differs from spherical barrier x volumeFactor/(4pi/3) = {ref!r}', factor='Gcrit')
     return reads_after_set >= 3
 
